@@ -752,8 +752,30 @@ func (fw *fsmWorld) afterReopenKick() {
 		if isCleanup(s.Status) {
 			fw.r.Probe("reopened-in-cleanup")
 			before := len(fw.envCalls)
+			nev := len(fw.evs)
 			fw.apply(c, opCCOR, opArgs{})
 			simrt.Sleep(time.Millisecond)
+			// C17: the event was applied (the channel finishes its cleanup because of it), so subscribers hear of it - once,
+			// before the CleanupComplete it leads to
+			nccor, ncc := 0, 0
+			for _, e := range fw.evs[nev:] {
+				if e.chid != c.chid {
+					continue
+				}
+				if e.code == datatransfer.CompleteCleanupOnRestart {
+					nccor++
+					if ncc > 0 {
+						fw.r.Failf("C17", "announced-not-sent-or-reordered", "CompleteCleanupOnRestart-after-CleanupComplete", "channel %d: CompleteCleanupOnRestart was announced after the CleanupComplete it caused", c.chid.ID)
+					}
+				}
+				if e.code == datatransfer.CleanupComplete {
+					ncc++
+				}
+			}
+			if ncc > 0 && nccor != 1 {
+				fw.r.Failf("C17", "applied-event-not-announced", fmt.Sprintf("CompleteCleanupOnRestart|announced=%d", nccor), "channel %d reopened in %s: CompleteCleanupOnRestart was applied (cleanup completed) but announced %d times", c.chid.ID, datatransfer.Statuses[s.Status], nccor)
+			}
+			fw.r.Probe("cleanup-on-restart-announced")
 			s2, err := fw.get(c, "GetByID-after-ccor")
 			if err == nil && s2.Status != terminalOf(s.Status) {
 				fw.r.Failf("C06", "cleanup-not-finished-on-restart", datatransfer.Statuses[s.Status], "channel reopened in %s and restarted stays in %s (want %s)", datatransfer.Statuses[s.Status], datatransfer.Statuses[s2.Status], datatransfer.Statuses[terminalOf(s.Status)])
@@ -1287,5 +1309,6 @@ func init() {
 	Register("C11", h("fsm-role-consistent", 3, true, false, false), h("fsm-arbitrary", 3, false, false, false))
 	Register("C09", h("fsm-role-consistent", 2, true, false, false), h("fsm-arbitrary", 2, false, false, false), h("fsm-arbitrary-reopen", 1, false, true, false))
 	Register("C19", h("fsm-role-consistent", 1, true, false, false), h("fsm-arbitrary-reopen", 1, false, true, false))
-	Register("C17", h("fsm-role-consistent", 3, true, false, false), h("fsm-arbitrary", 3, false, false, false), h("fsm-exhaustive-boundaries", 1, false, false, true))
+	Register("C17", h("fsm-role-consistent", 3, true, false, false), h("fsm-arbitrary", 3, false, false, false), h("fsm-exhaustive-boundaries", 1, false, false, true),
+		h("fsm-role-consistent-reopen", 2, true, true, false), h("fsm-arbitrary-reopen", 1, false, true, false))
 }
